@@ -24,6 +24,7 @@
     otherwise), so `tian_sound` does not need them as hypotheses: every expression it returns is right.
 -/
 import Y0.Lemmas.TianTotal
+import Y0.Lemmas.IdRank
 
 namespace Y0
 open Tian TianSpec
@@ -109,6 +110,16 @@ theorem tian_rejects_other_expressions (G : MG Name) (C T topo : List Name) (q :
   have e3 : ¬ (G.subgraph T).districts.length > 1 := by omega
   simp [identify, identifyAux, e1, e2, e3, h.1, h.2]
 
+/-- `tian_sound` with acyclicity in its relational form (`MG.Acyclic`, Y0/Spec/GraphSpec.lean) -/
+theorem tian_sound_acyclic (M : Scm) (G : MG Name) (hM : M.Compatible G) (hG : G.WF) (hac : G.Acyclic)
+    (topo : List Name) (htnd : topo.Nodup) (hord : TopoOrdered G topo)
+    (C T : List Name) (hCnd : C.Nodup) (hTnd : T.Nodup) (hT : ∀ t ∈ T, t ∈ G.nodes)
+    (q : Expr) (hshape : ProbShape G.nodes q T) (σ' : Val)
+    (hq : ∀ σ, den (M.env G) σ' q σ = M.Q T σ)
+    (e : Expr) (h : identify G C T q topo = .ok (some e)) :
+    ∀ σ, den (M.env G) σ' e σ = M.Q C σ :=
+  tian_sound M G hM hG (MG.acyclic_ranked hG hac) topo htnd hord C T hCnd hTnd hT q hshape σ' hq e h
+
 -- OPEN: `tian_sound` without the syntactic hypothesis `ProbShape`, with the semantic hypothesis quantified over all
 -- models instead:
 --   theorem tian_sound_semantic (G) (hG : G.WF) (hrank : G.Ranked) (topo) (htnd) (hord) (C T) (hCnd) (hTnd) (hT)
@@ -117,8 +128,9 @@ theorem tian_rejects_other_expressions (G : MG Name) (C T topo : List Name) (q :
 --       (e : Expr) (h : identify G C T q topo = .ok (some e)) :
 --       ∀ M : Scm, M.Compatible G → ∀ σ, den (M.env G) σ' e σ = M.Q C σ
 -- It needs "a Probability that denotes Q[T] in EVERY compatible model has the shape P_w(T | Z)", which requires
--- constructing separating models and is not mechanised.  For a single model the statement without `ProbShape` is
--- false (a uniform model makes unrelated probabilities coincide with Q[T]), so `ProbShape` is not an artefact.
+-- constructing separating models and is not mechanised.  The hypothesis about a single model does not determine the
+-- children of the probability (in a uniform model unrelated probabilities coincide with Q[T]), and the Lemma-1
+-- branch never reads them, so the proof needs `ProbShape` or the all-models hypothesis.
 -- `Sum` / `Product` / `Fraction` inputs are covered by `tian_sound` without any shape hypothesis.
 
 /-! ## 2. the c-factor routines -/
@@ -231,6 +243,26 @@ example : TopoOrdered g [0, 3, 1, 2] := by
     | [x0, x1, x2, x3], e => simp at e; obtain ⟨rfl, rfl, rfl, rfl, rfl⟩ := e; decide
     | _ :: _ :: _ :: _ :: _ :: _, e => simp at hl
   exact this l1 l2 e.symm a ha r hr
+
+/-- the graph hypotheses of `tian_sound` hold for `g` -/
+example : g.WF := MG.wf_fromEdges _ _ _
+example : g.Ranked := ⟨fun v => if v = 0 then 0 else if v = 3 then 1 else if v = 1 then 2 else 3, by decide⟩
+
+/-- a positive model compatible with `g` exists (fair binary variables, no latent) -/
+def coins : Scm :=
+  { card := fun _ => 2, lat := [], prior := fun _ _ => 1, latOf := fun _ => [], kern := fun _ _ => 1 / 2 }
+
+example : coins.Compatible g := by
+  refine ⟨fun _ => by simp [coins], by simp [coins], by simp [coins], by simp [coins], by simp [coins],
+    by simp [coins], ?_, ?_, ?_, ?_⟩
+  · intro v _ σ τ _; rfl
+  · intro v _ σ; simp [coins]
+  · intro v _ σ
+    rw [sumVar_const _ _ _ _ (fun _ _ => rfl)]
+    simp [coins]
+  · intro v _ w _ _ h
+    obtain ⟨u, hu, _⟩ := h
+    simp [coins] at hu
 
 /-- the hypotheses of `tian_total` hold for this input -/
 example : ∃ r, identify g [2] [1, 2, 3] (.prob none [pl 1, pl 2, pl 3] [pl 0]) [0, 3, 1, 2] = .ok r :=
